@@ -66,6 +66,34 @@ fn pick_class(rng: &mut Rng, w: &[(BidiClass, usize)]) -> BidiClass {
 pub fn gen_text(rng: &mut Rng, mode: &str) -> Vec<u32> {
     match mode {
         "empty" => vec![],
+        "edges" => {
+            // a long run of ASCII with the only non-ASCII characters in the first or last few bytes (word-at-a-time
+            // scans treat the unaligned head and tail of a buffer separately from its aligned middle)
+            let ascii: Vec<u32> = "abcdefghij klmnop qrstuvwxyz 0123456789 ,.-()".chars().map(|c| c as u32).collect();
+            let edge = |rng: &mut Rng| -> Vec<u32> { (0..rng.range(1, 3)).map(|_| *rng.pick(&[0x5D0u32, 0x5D1, 0x627, 0x661, 0xE9, 0x10800, 0x2067, 0x202E])).collect() };
+            let mut t = vec![];
+            if rng.chance(2, 3) { t.extend(edge(rng)); }
+            for _ in 0..rng.range(12, 48) { t.push(*rng.pick(&ascii)); }
+            if rng.chance(1, 2) { t.extend(edge(rng)); }
+            t
+        }
+        "manyparas" => {
+            // several hundred paragraphs (per-paragraph state kept in fixed-size structures; 256 is a natural bound),
+            // isolates and brackets in the late ones
+            let n = match rng.below(3) { 0 => rng.range(250, 270), 1 => rng.range(300, 400), _ => rng.range(30, 60) };
+            let mut t = vec![];
+            for k in 0..n {
+                let late = k + 6 >= n;
+                let m = if late { rng.range(2, 8) } else { rng.range(0, 2) };
+                for _ in 0..m {
+                    let c = *rng.pick(&[L, R, AL, EN, ON, WS, NSM, LRI, RLI, FSI, PDI, ON]);
+                    t.push(if c == ON && rng.chance(1, 2) { *rng.pick(&[0x28u32, 0x29]) } else { pick_char(rng, c) });
+                }
+                t.push(pick_char(rng, B));
+            }
+            if rng.chance(1, 2) { t.pop(); }
+            t
+        }
         "removed" => {
             // text made only of characters that X9 removes (sometimes split into paragraphs): every level run
             // consists of removed characters, the "first / last character that is not removed" searches find nothing
@@ -638,8 +666,8 @@ fn line_case(rng: &mut Rng, modes: &[(&'static str, usize)]) -> (String, Input) 
     (mode, inp)
 }
 
-const MODES_ALL: [(&str, usize); 14] =
-    [("removed", 1), ("short", 12), ("long", 4), ("iso", 6), ("deep", 2), ("brk", 4), ("sep", 4), ("words", 6), ("weak", 6), ("para", 4), ("max", 2), ("n0", 8), ("deepiso", 1), ("siblings", 1)];
+const MODES_ALL: [(&str, usize); 16] =
+    [("edges", 2), ("manyparas", 1), ("removed", 1), ("short", 12), ("long", 4), ("iso", 6), ("deep", 2), ("brk", 4), ("sep", 4), ("words", 6), ("weak", 6), ("para", 4), ("max", 2), ("n0", 8), ("deepiso", 1), ("siblings", 1)];
 
 /// Exhaustive small scope (support for the thorough tier, never presented as proof): the `n`-th class
 /// sequence over `alphabet`, shortest first, crossed with the three base directions; representatives rotate.
@@ -765,11 +793,22 @@ pub fn gen_case(prop: &str, rng: &mut Rng, n: usize, thorough: bool) -> (String,
             if n == 1 {
                 return ("empty".into(), Input::Bidi { enc: Enc::U16, api: Api::B, dir: Dir::L1, text: vec![], ds: None });
             }
-            bidi_case(rng, &[("para", 10), ("iso", 8), ("short", 4), ("words", 2), ("sep", 2), ("deepiso", 1), ("deep", 1)], true)
+            bidi_case(rng, &[("para", 10), ("iso", 8), ("short", 4), ("words", 2), ("sep", 2), ("deepiso", 1), ("deep", 1), ("manyparas", 1)], true)
         }
-        "C03" | "C06" => line_case(rng, &[("sep", 5), ("short", 3), ("words", 3), ("iso", 2), ("para", 2), ("long", 1), ("siblings", 1)]),
-        "C05" => line_case(rng, &[("sep", 3), ("short", 3), ("words", 3), ("iso", 2), ("deep", 1), ("long", 2), ("max", 2), ("siblings", 1)]),
+        "C03" | "C05" | "C06" if n < 3 => {
+            // a line longer than 65,535 code units (the whole of a one-paragraph text), against the same tail after `a SP`
+            let tm = pick_mode(rng, &[("n0", 2), ("short", 2), ("words", 2)]);
+            let mut tail: Vec<u32> = gen_text(rng, tm).into_iter().filter(|c| !matches!(*c, 0xA | 0xD | 0x1C | 0x1D | 0x1E | 0x85 | 0x2029)).collect();
+            tail.truncate(24);
+            let enc = if n % 2 == 0 { Enc::U8 } else { Enc::U16 };
+            let tail = if enc == Enc::U16 { to_units(rng, &tail, false) } else { tail };
+            ("huge".into(), Input::MetaLong { enc, tail, dir: pick_dir(rng), n: 65_500 + rng.below(200) })
+        }
+        "C03" | "C06" => line_case(rng, &[("sep", 5), ("short", 3), ("words", 3), ("iso", 2), ("para", 2), ("long", 1), ("siblings", 1), ("edges", 3)]),
+        "C05" => line_case(rng, &[("sep", 3), ("short", 3), ("words", 3), ("iso", 2), ("deep", 1), ("long", 2), ("max", 2), ("siblings", 1), ("edges", 2)]),
         "C04" => ("levels".into(), Input::Rv { levels: gen_levels(rng) }),
+        "C07" if n == 0 => ("stress".into(), Input::Stress { n: 150_000 }),
+        "C07" if n == 1 => ("stress".into(), Input::Stress { n: 300 }),
         "C07" => match rng.below(10) {
             0..=3 => bidi_case(rng, &[("deep", 3), ("brk", 3), ("sep", 2), ("iso", 2), ("para", 2), ("short", 2), ("empty", 1), ("max", 2), ("removed", 2), ("siblings", 1)], true),
             4..=8 => line_case(rng, &[("deep", 3), ("max", 4), ("brk", 2), ("sep", 3), ("iso", 2), ("para", 2), ("short", 2), ("removed", 2)]),
@@ -810,7 +849,7 @@ pub fn gen_case(prop: &str, rng: &mut Rng, n: usize, thorough: bool) -> (String,
             (mode.into(), Input::Meta9 { units, dir, ds, line })
         }
         "C10" => {
-            let mode = pick_mode(rng, &[("para", 6), ("iso", 2), ("sep", 2), ("brk", 1), ("words", 2)]);
+            let mode = pick_mode(rng, &[("para", 6), ("iso", 2), ("sep", 2), ("brk", 1), ("words", 2), ("manyparas", 1)]);
             let mut t = gen_text(rng, mode);
             if rng.chance(1, 2) {
                 // make sure there are several paragraphs with unmatched openers before the separator
